@@ -69,8 +69,16 @@ inductive Inst where
   | dict (a : ArrayD)      -- map-backed dictionary: vector of `{key,value}` structs on the wire
   deriving Repr, Inhabited
 
+/-- naming information of an instance (used by the registry model, C17) -/
+structure InstName where
+  idx : Nat
+  tlname : String
+  topLevel : Bool
+  deriving Repr, Inhabited
+
 structure Desc where
   insts : Array Inst
+  names : List InstName := []
   deriving Repr, Inhabited
 
 def Desc.get? (d : Desc) (i : Nat) : Option Inst := d.insts[i]?
@@ -188,8 +196,21 @@ def pInst : P Inst
     pure (.dict { isTuple := false, dynamic := false, count := 0, nparams := np, elem := f, hasTL2 := flag fl 16 }, ts)
   | _ => none
 
+def pInstName : P InstName := fun ts => do
+  let (i, ts) ← pNat ts
+  match ts with
+  | n :: ts => do
+    let (t, ts) ← pBool ts
+    pure ({ idx := i, tlname := n, topLevel := t }, ts)
+  | [] => none
+
 def parseDesc (ts : List String) : Option Desc := do
   let (is, rest) ← pCounted pInst ts
-  if rest.isEmpty then pure { insts := is.toArray } else none
+  match rest with
+  | [] => pure { insts := is.toArray }
+  | "R" :: rest => do
+    let (ns, rest) ← pCounted pInstName rest
+    if rest.isEmpty then pure { insts := is.toArray, names := ns } else none
+  | _ => none
 
 end TLVerif.Codec
